@@ -139,3 +139,23 @@ Proof.
   - intros [[-> ->] ->]. reflexivity.
   - intros H; inversion H; auto.
 Qed.
+
+(** equality over an element type whose own equality is not reflexive (f64: NaN): an array is
+    equal to itself exactly when none of its cells is such a value *)
+Lemma cells_eqb_partial_refl (nan : nat -> bool) : forall (l : list N) i,
+  cells_eqb_partial nan i l l = true <-> (forall j, j < length l -> nan (i + j) = false).
+Proof.
+  induction l as [|x l IH]; intros i; cbn [cells_eqb_partial length].
+  - split; [intros _ j Hj; lia|reflexivity].
+  - rewrite N.eqb_refl. cbn [andb]. rewrite Bool.andb_true_iff, Bool.negb_true_iff, IH. split.
+    + intros [H0 Hr] j Hj. destruct j as [|j]; [rewrite Nat.add_0_r; exact H0|].
+      replace (i + S j) with (S i + j) by lia. apply Hr. lia.
+    + intros H. split; [rewrite <- (Nat.add_0_r i); apply H; lia|].
+      intros j Hj. replace (S i + j) with (i + S j) by lia. apply H. lia.
+Qed.
+
+Theorem td_eqb_partial_self (nan : nat -> bool) (a : toodee N) :
+  td_eqb_partial nan a a = true <-> (forall j, j < length (data a) -> nan j = false).
+Proof.
+  unfold td_eqb_partial. rewrite !Nat.eqb_refl, !Bool.andb_true_r. apply (cells_eqb_partial_refl nan (data a) 0).
+Qed.
